@@ -1,3 +1,4 @@
+import fcntl
 import locale
 import logging
 import os
@@ -340,9 +341,15 @@ class Input(ContextManager["Input"]):
 
     def _nonblocking_read(self) -> int:
         """Returns the number of characters read and adds them to self.unprocessed_bytes"""
-        with Nonblocking(self.in_stream):
+        # try/finally rather than `with Nonblocking(...)`: a KeyboardInterrupt
+        # arriving inside the context manager's __enter__ or __exit__ would leave
+        # the stream non-blocking after the request (and after the Input is left)
+        fd = self.in_stream.fileno()
+        orig_fl = fcntl.fcntl(fd, fcntl.F_GETFL)
+        try:
+            fcntl.fcntl(fd, fcntl.F_SETFL, orig_fl | os.O_NONBLOCK)
             try:
-                data = os.read(self.in_stream.fileno(), READ_SIZE)
+                data = os.read(fd, READ_SIZE)
             except BlockingIOError:
                 return 0
             if data:
@@ -350,6 +357,8 @@ class Input(ContextManager["Input"]):
                 return len(data)
             else:
                 return 0
+        finally:
+            fcntl.fcntl(fd, fcntl.F_SETFL, orig_fl)
 
     def event_trigger(
         self, event_type: Union[Type[events.Event], Callable[..., None]]
